@@ -959,6 +959,9 @@ def call_builtin(it, name, args, kwargs):
             return map1(it, x, lambda v: s_abs(v, it.ctx), "float")
         if hasattr(x, "__aovc_abs__"):
             return x.__aovc_abs__(it)
+        if is_z3(x) and z3.is_arith(x):
+            # scalar abs: split the path on the sign (keeps the terms polynomial for the solver)
+            return x if it.ctx.branch(x >= 0) else -x
         return s_abs(x, it.ctx)
     if name == "round":
         if len(args) == 1:
@@ -1075,9 +1078,25 @@ EXT["numpy.ones"] = _mk_filled("ones")
 EXT["numpy.empty"] = _mk_filled("empty")
 
 
-@ext("numpy.array", "numpy.asarray")
+@ext("numpy.array")
 def _array(it, x, dtype=None, **kw):
     return array(it, x, dtype)
+
+
+@ext("numpy.asarray", "numpy.asanyarray")
+def _asarray(it, x, dtype=None, **kw):
+    dt = dtype_name(dtype) if dtype is not None else None
+    if hasattr(x, "__aovc_asarray__"):
+        return x.__aovc_asarray__(it, dt)
+    if isinstance(x, Arr) and (dt is None or dt == x.dtype):
+        return x                      # no copy: the same array object
+    return array(it, x, dtype)
+
+
+@ext("numpy.isclose")
+def _isclose(it, a, b, rtol=Fraction(1, 10**5), atol=Fraction(1, 10**8), **kw):
+    return map2(it, a, b, lambda x, y: cmp("<=", r_abs(r_sub(x, y)), r_add(atol, r_mul(rtol, r_abs(y)))), "bool") if (isinstance(a, Arr) or isinstance(b, Arr)) \
+        else cmp("<=", r_abs(r_sub(a, b)), r_add(atol, r_mul(rtol, r_abs(b))))
 
 
 @ext("numpy.arange")
@@ -1481,3 +1500,78 @@ def _hstack(it, xs):
 EXT["numpy.floor"] = _elementwise("floor", lambda it, v: r_floor(v), "float")
 EXT["numpy.ceil"] = _elementwise("ceil", lambda it, v: r_neg(r_floor(r_neg(v))), "float")
 EXT["numpy.trunc"] = _elementwise("trunc", lambda it, v: r_trunc(v), "float")
+
+
+# ----------------------------------------------------------------------------- numpy.fft
+def _fft_shift(sign):
+    def f(it, x, axes=None):
+        from . import opword
+        if isinstance(x, opword.Lin):
+            return opword.shift(it, x, axes, sign)
+        A = as_arr(it, x)
+        axs = opword._axes(axes, A.ndim, list(range(A.ndim)))
+        cur = A
+        for ax in axs:
+            n = cur.shape[ax]
+            h = it.floordiv(n, 2)
+            s = h if sign > 0 else r_neg(h)
+            snap = cur.snapshot()
+
+            def g(idx, snap=snap, ax=ax, n=n, s=s):
+                j = list(idx)
+                j[ax] = it.mod(r_sub(idx[ax], s), n)
+                return snap(j)
+            cur = Arr(list(cur.shape), g, cur.dtype)
+        return cur
+    return f
+
+
+EXT["numpy.fft.fftshift"] = _fft_shift(+1)
+EXT["numpy.fft.ifftshift"] = _fft_shift(-1)
+
+
+def _fft_call(kind, default_axes):
+    def f(it, x, *args, **kw):
+        from . import opword
+        n = kw.get("n", args[0] if (args and kind in ("fft", "ifft")) else None)
+        s = kw.get("s", args[0] if (args and kind not in ("fft", "ifft")) else None)
+        if kind in ("fft", "ifft"):
+            axis = kw.get("axis", args[1] if len(args) > 1 else -1)
+            axes = [axis]
+        else:
+            axes = kw.get("axes", args[1] if len(args) > 1 else default_axes)
+        base = "fft" if kind in ("fft", "fft2") else "ifft"
+        if isinstance(x, opword.Lin):
+            return opword.transform(it, x, base, opword._axes(axes, x.ndim, default_axes), n, s)
+        A = as_arr(it, x)
+        return abstract_fft(it, A, base, opword._axes(axes, A.ndim, default_axes), n, s)
+    return f
+
+
+def abstract_fft(it, A, base, axes, n, s):
+    """DFT of a functional array: an opaque array determined by (input, transformed axes, lengths): equal inputs, axes and
+    lengths give the same uninterpreted elements (congruence); no other law is assumed here"""
+    lens = []
+    shape = list(A.shape)
+    if n is not None:
+        lens = [as_dim(n)]
+    elif s is not None:
+        lens = [as_dim(v) for v in s]
+    for k, ax in enumerate(axes):
+        if lens:
+            shape[ax] = lens[k]
+    tag = "%s_ax%s" % (base, "_".join(str(a) for a in axes))
+    src = A.label if A.root is None and A.writes == 0 else fresh_name(A.label)
+    nd = len(shape)
+    extra = [zi(v) for v in lens]
+    fr = z3.Function("%s.re[%s]" % (tag, src), *([z3.IntSort()] * (nd + len(extra)) + [z3.RealSort()]))
+    fi = z3.Function("%s.im[%s]" % (tag, src), *([z3.IntSort()] * (nd + len(extra)) + [z3.RealSort()]))
+    res = Arr(shape, lambda idx: Cx(fr(*([zi(i) for i in idx] + extra)), fi(*([zi(i) for i in idx] + extra))), "complex")
+    res.fft_of = (A, base, axes, lens)
+    return res
+
+
+EXT["numpy.fft.fft"] = _fft_call("fft", [-1])
+EXT["numpy.fft.ifft"] = _fft_call("ifft", [-1])
+EXT["numpy.fft.fft2"] = _fft_call("fft2", [-2, -1])
+EXT["numpy.fft.ifft2"] = _fft_call("ifft2", [-2, -1])
